@@ -109,12 +109,19 @@ extern ssize_t mpt_encode_cobs(MPT_STRUCT(encode_state) *info, const struct iove
 			pos -= info->_ctx - info->scratch;
 			--len;
 		}
-		tmp.iov_base = (void *) src;
+		/* finished messages: search end of preceding one */
+		tmp.iov_base = cobs->iov_base;
 		while (len--) {
-			tmp.iov_len  = pos;
-			if ((pos = mpt_memrchr(&tmp, 1, 0)) < 0) {
-				return MPT_ERROR(BadValue);
+			if (pos < 1) {
+				return MPT_ERROR(MissingData);
 			}
+			/* skip own terminator */
+			tmp.iov_len = pos - 1;
+			/* without preceding message the start may be gone already */
+			if ((pos = mpt_memrchr(&tmp, 1, 0)) < 0) {
+				return MPT_ERROR(MissingData);
+			}
+			++pos;
 		}
 		info->_ctx = 0;
 		info->done = pos;
